@@ -20,7 +20,7 @@ fn main() {
         eprintln!("MACHINERY-ERROR property={} wall-clock seam S3 self-test failed: {e}", args.property);
         std::process::exit(2);
     }
-    let code = match args.property.as_str() {
+    let code = explorer::guard_main(&args.property, || match args.property.as_str() {
         "C34" => c34::run(Report::new(&args, "model_checking")),
         "C35" => c35::run(Report::new(&args, "model_checking")),
         "C36" => c36::run(Report::new(&args, "model_checking")),
@@ -30,6 +30,6 @@ fn main() {
             eprintln!("vh-enc: unknown property {other}");
             2
         }
-    };
+    });
     std::process::exit(code);
 }
